@@ -6,7 +6,8 @@
 // port. The recorded client history (operations whose reply was lost stay open) is checked
 // per (series,timestamp) with porcupine; between faults, with no write in flight, six
 // consecutive full reads must be identical and hold the latest acknowledged value of every
-// key.
+// key. A wrong history is classified (classify.go) from what the driver recorded about the
+// schedule (observe.go): which store was hit, which replica served, what it went through.
 package main
 
 import (
@@ -74,8 +75,9 @@ func (r *recorder) watched(w int) []key {
 }
 
 type fault struct {
-	Kind   string `json:"kind"`   // kill | pause | kill-during-flush
-	Target string `json:"target"` // leader | follower
+	Kind   string `json:"kind"`            // kill | pause | kill-during-flush
+	Target string `json:"target"`          // leader | follower
+	Point  string `json:"point,omitempty"` // kill-during-flush: the hook point inside the flush at which the store dies
 }
 
 type schedule struct {
@@ -93,6 +95,8 @@ type runner struct {
 	c *vf.Ctx
 }
 
+var flushPoints = []string{"flush-after-wal-switch", "flush-after-index-flush", "flush-after-commit"}
+
 func seriesName(w, s int) string { return fmt.Sprintf("s=%d,w=%d", s, w) }
 
 func line(w, se int, t, v int64) string {
@@ -108,7 +112,12 @@ func (rn *runner) runSchedule(sc schedule, worker int) {
 		c.Broken("cluster: %v", err)
 		return
 	}
-	defer func() { cl.KillAll(); os.RemoveAll(dir) }()
+	defer func() {
+		cl.KillAll()
+		if os.Getenv("VERIF_KEEP_SCRATCH") == "" {
+			os.RemoveAll(dir)
+		}
+	}()
 	if err := cl.StartAll(180 * time.Second); err != nil {
 		c.Broken("schedule %d: %v", sc.Index, err)
 		return
@@ -120,6 +129,8 @@ func (rn *runner) runSchedule(sc schedule, worker int) {
 	}
 	const nW, nR, nSeries = 3, 2, 3
 	rec := &recorder{attempted: map[int][]key{}, seen: map[key]bool{}}
+	tl := &timeline{}
+	var phases []phaseInfo
 	var valSeq int64
 	newVal := func(client int) int64 { return int64(client)<<32 | atomic.AddInt64(&valSeq, 1) }
 	ws := make([]*writerState, nW)
@@ -164,11 +175,27 @@ func (rn *runner) runSchedule(sc schedule, worker int) {
 		}
 		time.Sleep(300 * time.Millisecond)
 	}
-	phase := 0
+	phase, step := 0, 0
+	down := -1
 	var unknownWrites, ackedWrites, failedReads, okReads int64
-	// one concurrent phase: writers and readers run `n` operations each
+	// one concurrent phase: writers and readers run `n` operations each; the master / raft
+	// leader is sampled in the background
 	runPhase := func(n int, during func()) {
 		var wg sync.WaitGroup
+		stop := make(chan struct{})
+		var swg sync.WaitGroup
+		swg.Add(1)
+		go func() {
+			defer swg.Done()
+			for {
+				select {
+				case <-stop:
+					return
+				case <-time.After(250 * time.Millisecond):
+					tl.sample(cl, -1)
+				}
+			}
+		}()
 		for w := 0; w < nW; w++ {
 			wg.Add(1)
 			go func(w int) {
@@ -192,13 +219,13 @@ func (rn *runner) runSchedule(sc schedule, worker int) {
 					call := tick()
 					res := cl.Front.Write(db, line(w, se, k.T, v), nil)
 					ret := tick()
-					o := op{Client: w + 1, Write: true, Key: k, Val: v, Call: call, Phase: phase}
-					if res.Acked() {
+					o := op{Client: w + 1, Write: true, Key: k, Val: v, Call: call, Phase: phase, Step: step}
+					if res.Acked() { // HTTP 204 and nothing else
 						o.Ret = ret
 						st.acked[k] = true
 						atomic.AddInt64(&ackedWrites, 1)
 					} else {
-						st.dirty[k] = true // outcome unknown: the key is retired for this client
+						st.dirty[k] = true // outcome unknown: the operation stays open, the key is retired for this client
 						atomic.AddInt64(&unknownWrites, 1)
 						time.Sleep(300 * time.Millisecond)
 					}
@@ -213,7 +240,7 @@ func (rn *runner) runSchedule(sc schedule, worker int) {
 				defer wg.Done()
 				r := rand.New(rand.NewPCG(c.Seed, uint64(sc.Index*1000+phase*10+5+rd)))
 				for q := 0; q < n; q++ {
-					rn.scan(cl, rec, 100+rd, r.IntN(nW), phase, &okReads, &failedReads)
+					rn.scan(cl, rec, 100+rd, r.IntN(nW), phase, step, &okReads, &failedReads)
 					time.Sleep(time.Duration(40+r.IntN(80)) * time.Millisecond)
 				}
 			}(rd)
@@ -222,6 +249,8 @@ func (rn *runner) runSchedule(sc schedule, worker int) {
 			during()
 		}
 		wg.Wait()
+		close(stop)
+		swg.Wait()
 	}
 	// quiesce: no write in flight; a write must be acknowledged within bounded retries, then
 	// six full reads must be identical and current
@@ -238,7 +267,7 @@ func (rn *runner) runSchedule(sc schedule, worker int) {
 			call := tick()
 			res := cl.Front.Write(db, line(w, 0, k.T, v), nil)
 			ret := tick()
-			o := op{Client: w + 1, Write: true, Key: k, Val: v, Call: call, Phase: phase}
+			o := op{Client: w + 1, Write: true, Key: k, Val: v, Call: call, Phase: phase, Step: step}
 			if res.Acked() {
 				o.Ret = ret
 				st.acked[k] = true
@@ -256,12 +285,13 @@ func (rn *runner) runSchedule(sc schedule, worker int) {
 			fmt.Printf("INCONCLUSIVE C05 schedule %d %s: no write acknowledged within 80 retries\n", sc.Index, label)
 			return false
 		}
+		tl.sample(cl, down)
 		var first map[key]int64
 		for rep := 0; rep < 6; rep++ {
 			got := map[key]int64{}
 			okAll := true
 			for w := 0; w < nW; w++ {
-				g, ok := rn.scan(cl, rec, 200, w, phase, &okReads, &failedReads)
+				g, ok := rn.scan(cl, rec, 200, w, phase, step, &okReads, &failedReads)
 				if !ok {
 					okAll = false
 					break
@@ -280,18 +310,32 @@ func (rn *runner) runSchedule(sc schedule, worker int) {
 			}
 			if d := diffMaps(first, got); d != "" {
 				c.Violation("replicas-disagree:quiescent-reads-differ", fmt.Sprintf("schedule %d, %s, no write in flight: read %d differs from read 1: %s", sc.Index, label, rep+1, d),
-					map[string]any{"schedule": sc, "phase": label, "diff": d})
+					map[string]any{"schedule": sc, "phase": label, "diff": d, "phases": phases, "master_and_leader_changes": tl.snapshot()})
 				return false
 			}
 		}
+		tl.sample(cl, down)
 		return true
 	}
+	finish := func() {
+		c.Eval(1)
+		c.Count("writes-acknowledged", ackedWrites)
+		c.Count("writes-with-unknown-outcome(kept open)", unknownWrites)
+		c.Count("reads-ok", okReads)
+		c.Count("reads-failed", failedReads)
+		rn.checkHistory(sc, rec.ops, tl, phases)
+		if sc.Index == 0 {
+			c.Sample(map[string]any{"schedule": sc, "ops_recorded": len(rec.ops), "acked": ackedWrites, "unknown": unknownWrites,
+				"phases": phases, "master_and_leader_changes": tl.snapshot()})
+		}
+	}
 
-	down := -1
+	var history [3][]string
 	for fi, f := range sc.Faults {
-		phase = fi + 1
+		phase, step = fi+1, stepDuringFault
 		label := fmt.Sprintf("fault%d:%s-%s", fi+1, f.Kind, f.Target)
-		ldr := leaderOf(cl, down)
+		before := tl.sample(cl, down)
+		ldr := before.Leader
 		victim := -1
 		switch f.Target {
 		case "leader":
@@ -304,36 +348,92 @@ func (rn *runner) runSchedule(sc schedule, worker int) {
 				}
 			}
 		}
-		if victim < 0 {
+		if victim < 0 || ldr < 0 {
 			c.Inconclusive("no-victim-found:"+label, 1)
 			continue
+		}
+		pi := phaseInfo{Phase: phase, Fault: f, Victim: victim + 1, VictimRaftLeader: victim == ldr, VictimMaster: victim == before.Master,
+			LeaderBefore: ldr + 1, MasterBefore: before.Master + 1}
+		for i := range history {
+			pi.StoreHistory[i] = append([]string(nil), history[i]...)
 		}
 		role := "follower"
 		if victim == ldr {
 			role = "leader"
 		}
-		c.Distinct("fault(kind|role-of-victim)", f.Kind+"|"+role)
+		masterRole := "not-master"
+		if pi.VictimMaster {
+			masterRole = "master"
+		}
+		c.Distinct("fault(kind|raft-role-of-victim|owns-master-partition)", f.Kind+"|"+role+"|"+masterRole)
+		c.Distinct("history-of-victim-before-the-fault", describeHistory(history[victim]))
 		c.Nontrivial(fmt.Sprintf("sched%d|%s|%s|store%d", sc.Index, f.Kind, role, victim+1))
 		r := c.Rand(uint64(sc.Index*100 + fi))
 		inject := func() {
 			time.Sleep(time.Duration(300+r.IntN(1500)) * time.Millisecond)
+			pi.FaultTick[0] = tick()
 			switch f.Kind {
 			case "kill":
 				cl.Stores[victim].Kill()
 			case "kill-during-flush":
-				go cl.StoreCtl(victim, "POST", "/verif/flush", "")
-				time.Sleep(time.Duration(r.IntN(30)) * time.Millisecond)
+				// the store dies at a point inside the memtable flush (engine/ts_storage.go
+				// writeSnapshot): after the memtable switch, after the index flush (data file not yet
+				// written) or after the data file was committed (nothing removed yet)
+				point := f.Point
+				if point == "" {
+					point = flushPoints[r.IntN(len(flushPoints))]
+				}
+				pi.FlushPoint = point
+				// the flush is parked at the point (sleep action); once the control port shows that
+				// the point was reached the process is SIGKILLed while it sits there
+				n := int64(-1)
+				if st, err := cl.StoreState(victim); err == nil {
+					pts, _ := st["points"].(map[string]any)
+					if n = int64(num(pts[point])); n < 0 {
+						n = 0 // never hit so far
+					}
+				}
+				reached := false
+				if n >= 0 && cl.StoreCtl(victim, "POST", "/verif/points", point+"=sleep(6000)") == nil {
+					go cl.StoreCtl(victim, "POST", "/verif/flush", "")
+					for t := 0; t < 100 && !reached; t++ {
+						time.Sleep(50 * time.Millisecond)
+						if st, err := cl.StoreState(victim); err == nil {
+							pts, _ := st["points"].(map[string]any)
+							reached = int64(num(pts[point])) > n
+						}
+					}
+					if reached {
+						time.Sleep(300 * time.Millisecond) // concurrent goroutines of the flush (raft snapshot) get their turn
+					}
+				}
+				if !reached { // nothing to flush (empty memtable) or control port unreachable: plain kill
+					pi.FlushPoint += "(not reached: plain kill)"
+				}
+				pi.FaultTick[0] = tick()
 				cl.Stores[victim].Kill()
+				c.Distinct("kill-during-flush-point", pi.FlushPoint)
 			case "pause":
 				cl.Stores[victim].Pause()
 			}
+			pi.FaultTick[1] = tick()
 		}
 		runPhase(c.Pick(25, 40), inject)
 		down = victim
-		if !quiesce(label + "(one store down)") {
+		step = stepQuietDown
+		okQ := quiesce(label + "(one store down)")
+		o1 := tl.sample(cl, down)
+		pi.MasterOneDown, pi.LeaderOneDown = o1.Master+1, o1.Leader+1
+		if !okQ {
+			phases = append(phases, pi)
+			finish()
 			return
 		}
+		if o1.Master >= 0 {
+			c.Distinct("history-of-the-replica-serving-with-one-store-down", describeHistory(history[o1.Master]))
+		}
 		// heal
+		pi.HealTick = tick()
 		switch f.Kind {
 		case "pause":
 			cl.Stores[victim].Resume()
@@ -343,6 +443,7 @@ func (rn *runner) runSchedule(sc schedule, worker int) {
 				return
 			}
 		}
+		history[victim] = append(history[victim], f.Kind)
 		// the rejoining store must come back (bounded); it catches up in the background
 		back := false
 		for t := 0; t < 240; t++ {
@@ -354,23 +455,27 @@ func (rn *runner) runSchedule(sc schedule, worker int) {
 		}
 		if !back {
 			c.Inconclusive("store-did-not-come-back:"+label, 1)
+			phases = append(phases, pi)
+			finish()
 			return
 		}
 		down = -1
+		step = stepHealed
 		runPhase(c.Pick(12, 25), nil) // traffic while the rejoined store catches up
-		if !quiesce(label + "(healed)") {
+		step = stepQuietHealed
+		okQ = quiesce(label + "(healed)")
+		o2 := tl.sample(cl, -1)
+		pi.MasterHealed, pi.LeaderHealed = o2.Master+1, o2.Leader+1
+		for i := 0; i < 3; i++ {
+			pi.StatesHealed[i] = storeStateLine(cl, i)
+		}
+		phases = append(phases, pi)
+		if !okQ {
+			finish()
 			return
 		}
 	}
-	c.Eval(1)
-	c.Count("writes-acknowledged", ackedWrites)
-	c.Count("writes-with-unknown-outcome(kept open)", unknownWrites)
-	c.Count("reads-ok", okReads)
-	c.Count("reads-failed", failedReads)
-	rn.checkHistory(sc, rec.ops)
-	if sc.Index == 0 {
-		c.Sample(map[string]any{"schedule": sc, "ops_recorded": len(rec.ops), "acked": ackedWrites, "unknown": unknownWrites})
-	}
+	finish()
 }
 
 func diffMaps(a, b map[key]int64) string {
@@ -392,15 +497,22 @@ func diffMaps(a, b map[key]int64) string {
 	return strings.Join(d, "; ")
 }
 
-// scan reads all rows of writer w and records one read observation per watched key.
-func (rn *runner) scan(cl *proc.Cluster, rec *recorder, client, w, phase int, okN, failN *int64) (map[key]int64, bool) {
+// scan reads all rows of writer w and records one read observation per watched key. A reply
+// that is an error, carries a statement error or is marked partial is not an observation.
+func (rn *runner) scan(cl *proc.Cluster, rec *recorder, client, w, phase, step int, okN, failN *int64) (map[key]int64, bool) {
 	watched := rec.watched(w)
 	call := tick()
 	res, err := cl.Front.Query(db, fmt.Sprintf("SELECT fi, fs FROM m WHERE w = '%d' GROUP BY *", w), nil)
 	ret := tick()
-	if err != nil || len(res.Results) != 1 {
+	if err != nil || res.Status != 200 || len(res.Results) != 1 || res.Results[0].Partial {
 		atomic.AddInt64(failN, 1)
 		return nil, false
+	}
+	for _, se := range res.Results[0].Series {
+		if se.Partial {
+			atomic.AddInt64(failN, 1)
+			return nil, false
+		}
 	}
 	atomic.AddInt64(okN, 1)
 	got := map[key]int64{}
@@ -418,22 +530,25 @@ func (rn *runner) scan(cl *proc.Cluster, rec *recorder, client, w, phase int, ok
 			got[key{sn, t}] = fi
 		}
 	}
+	if len(got) == 0 && len(watched) > 0 {
+		rn.c.Count("successful-reads-that-returned-no-row-at-all", 1)
+	}
 	var ops []op
 	seen := map[key]bool{}
 	for _, k := range watched {
 		seen[k] = true
-		ops = append(ops, op{Client: client, Key: k, Val: got[k], Call: call, Ret: ret, Phase: phase})
+		ops = append(ops, op{Client: client, Key: k, Val: got[k], Call: call, Ret: ret, Phase: phase, Step: step})
 	}
 	for k, v := range got {
 		if !seen[k] {
-			ops = append(ops, op{Client: client, Key: k, Val: v, Call: call, Ret: ret, Phase: phase})
+			ops = append(ops, op{Client: client, Key: k, Val: v, Call: call, Ret: ret, Phase: phase, Step: step})
 		}
 	}
 	rec.add(ops...)
 	return got, true
 }
 
-func (rn *runner) checkHistory(sc schedule, ops []op) {
+func (rn *runner) checkHistory(sc schedule, ops []op, tl *timeline, phases []phaseInfo) {
 	c := rn.c
 	var end int64
 	for _, o := range ops {
@@ -474,6 +589,7 @@ func (rn *runner) checkHistory(sc schedule, ops []op) {
 		}
 		return keys[i].T < keys[j].T
 	})
+	reported := map[string]int{}
 	for _, k := range keys {
 		kops := byKey[k]
 		var pops []porcupine.Operation
@@ -503,19 +619,24 @@ func (rn *runner) checkHistory(sc schedule, ops []op) {
 		case porcupine.Illegal:
 			checked++
 			bad++
-			if bad <= 3 {
-				what, sig, ph := explain(kops)
-				sort.Slice(kops, func(i, j int) bool { return kops[i].Call < kops[j].Call })
-				label := "before-any-fault"
-				if ph > 0 && ph <= len(sc.Faults) {
-					label = sc.Faults[ph-1].Kind + "-" + sc.Faults[ph-1].Target
-				}
-				c.Violation("non-linearizable-key:"+sig, fmt.Sprintf("schedule %d (anomalous read in the phase of fault %q): history of %s@%d is not linearizable: %s", sc.Index, label, k.Series, k.T, what),
-					map[string]any{"schedule": sc, "key": k, "ops": kops})
+			an := analyse(kops, tl, phases)
+			c.Count("non-linearizable-keys:"+an.Sig, 1)
+			// at most two witnesses per signature and schedule; every key is counted above
+			reported[an.Sig]++
+			if reported[an.Sig] > 2 {
+				continue
 			}
+			sort.Slice(kops, func(i, j int) bool { return kops[i].Call < kops[j].Call })
+			label := "before-any-fault"
+			if an.Phase > 0 && an.Phase <= len(sc.Faults) {
+				label = faultLabel(sc.Faults[an.Phase-1])
+			}
+			c.Violation(an.Sig, fmt.Sprintf("schedule %d (first wrong read in the phase of fault %d %q): history of %s@%d is not linearizable: %s", sc.Index, an.Phase, label, k.Series, k.T, an.What),
+				map[string]any{"schedule": sc, "key": k, "analysis": an.Detail, "phases": phases, "master_and_leader_changes": tl.snapshot(), "ops": compress(kops)})
 		}
 	}
 	c.Count("keys-checked-with-porcupine", int64(checked))
+	c.Count("non-linearizable-keys", int64(bad))
 	c.Count("read-observations-checked", int64(reads))
 	c.Count("operations-recorded", int64(len(ops)))
 	if unknown > 0 {
@@ -523,44 +644,25 @@ func (rn *runner) checkHistory(sc schedule, ops []op) {
 	}
 }
 
-func explain(kops []op) (string, string, int) {
-	var ws, rs []op
-	for _, o := range kops {
+// compress folds runs of reads that returned the same value in the same phase/step into one
+// entry (first and last interval, count) so that witnesses stay small.
+func compress(kops []op) []map[string]any {
+	var out []map[string]any
+	for i := 0; i < len(kops); {
+		o := kops[i]
 		if o.Write {
-			ws = append(ws, o)
-		} else {
-			rs = append(rs, o)
-		}
-	}
-	sort.Slice(ws, func(i, j int) bool { return ws[i].Call < ws[j].Call })
-	sort.Slice(rs, func(i, j int) bool { return rs[i].Call < rs[j].Call })
-	idx := map[int64]int{}
-	for i, w := range ws {
-		idx[w.Val] = i
-	}
-	for _, r := range rs {
-		if r.Val == 0 {
-			for _, w := range ws {
-				if w.Ret != 0 && w.Ret < r.Call {
-					return fmt.Sprintf("read [%d,%d] by client %d returned absent although write(%d) was acknowledged at %d", r.Call, r.Ret, r.Client, w.Val, w.Ret), "acknowledged-point-missing", r.Phase
-				}
-			}
+			out = append(out, map[string]any{"write": o.Val, "client": o.Client, "call": o.Call, "ret": o.Ret, "phase": o.Phase, "step": o.Step})
+			i++
 			continue
 		}
-		i, ok := idx[r.Val]
-		if !ok {
-			return fmt.Sprintf("read by client %d returned value %d that nobody wrote", r.Client, r.Val), "value-nobody-wrote", r.Phase
+		j := i
+		for j+1 < len(kops) && !kops[j+1].Write && kops[j+1].Val == o.Val && kops[j+1].Phase == o.Phase && kops[j+1].Step == o.Step {
+			j++
 		}
-		if ws[i].Call > r.Ret {
-			return fmt.Sprintf("read [%d,%d] returned %d before its write was issued", r.Call, r.Ret, r.Val), "read-from-the-future", r.Phase
-		}
-		for j := i + 1; j < len(ws); j++ {
-			if ws[j].Ret != 0 && ws[j].Ret < r.Call {
-				return fmt.Sprintf("read [%d,%d] by client %d returned %d although the overwrite write(%d) was acknowledged at %d", r.Call, r.Ret, r.Client, r.Val, ws[j].Val, ws[j].Ret), "stale-value-after-acknowledged-overwrite", r.Phase
-			}
-		}
+		out = append(out, map[string]any{"reads": j - i + 1, "value": o.Val, "first": []int64{o.Call, o.Ret}, "last": []int64{kops[j].Call, kops[j].Ret}, "phase": o.Phase, "step": o.Step})
+		i = j + 1
 	}
-	return "reads observed the writes in incompatible orders (a value reappeared or disappeared between reads)", "incompatible-orders", 0
+	return out
 }
 
 func genSchedule(r *rand.Rand, idx, n int) schedule {
@@ -568,6 +670,9 @@ func genSchedule(r *rand.Rand, idx, n int) schedule {
 	kinds := []string{"kill", "kill", "pause", "kill-during-flush"}
 	for i := 0; i < n; i++ {
 		f := fault{Kind: kinds[r.IntN(len(kinds))], Target: []string{"leader", "follower"}[r.IntN(2)]}
+		if f.Kind == "kill-during-flush" {
+			f.Point = flushPoints[r.IntN(len(flushPoints))]
+		}
 		sc.Faults = append(sc.Faults, f)
 	}
 	return sc
@@ -575,9 +680,10 @@ func genSchedule(r *rand.Rand, idx, n int) schedule {
 
 func main() {
 	c := vf.New("C05", "fault_enumeration")
-	c.SetRule("seeded nemesis schedules against a real 3 meta / 3 store / 1 sql cluster (ha-policy replication, REPLICAS 3): per fault a concurrent phase (3 writers with unique values incl. overwrites, 2 readers) during which one store — the raft leader or a follower, as read from the control port — is SIGKILLed, killed during a forced flush, or SIGSTOPped; quiescent verification with one store down (a write acknowledged within bounded retries, six identical full reads); heal (restart / SIGCONT), traffic during catch-up, quiescent verification again; the next fault then hits a possibly different store. Oracle: porcupine register check per (series,timestamp) with lost-reply operations kept open; distinct non-trivial = distinct (schedule, fault kind, role of the victim, store)")
+	c.SetRule("seeded nemesis schedules against a real 3 meta / 3 store / 1 sql cluster (ha-policy replication, REPLICAS 3): per fault a concurrent phase (3 writers with unique values incl. overwrites, 2 readers) during which one store — the raft leader or a follower, as read from the control port — is SIGKILLed, killed during a forced flush, or SIGSTOPped; quiescent verification with one store down (a write acknowledged within bounded retries, six identical full reads); heal (restart / SIGCONT), traffic during catch-up, quiescent verification again; the next fault then hits a possibly different store. Oracle: porcupine register check per (series,timestamp) with lost-reply operations kept open; a wrong history is classified by where the wrong reads were given and by the history of the replica that served them; distinct non-trivial = distinct (schedule, fault kind, role of the victim, store)")
 	c.Assume("at most one store is down or paused at any time; meta and sql nodes are not faulted; no network partitions between live processes")
 	c.Assume("bounded liveness: 'writes accepted again' is judged within 80 retries (0.5 s apart); exceeding it is inconclusive, not a violation")
+	c.Assume("a write counts as acknowledged only on HTTP 204; any other reply leaves the operation open; a read that fails, carries an error or is marked partial is not an observation")
 	rn := &runner{c: c}
 	if c.ReplayIn != "" {
 		b, _ := os.ReadFile(c.ReplayIn)
@@ -593,7 +699,7 @@ func main() {
 		c.Finish()
 	}
 	n := c.Pick(1, 8)
-	nf := c.Pick(3, 6)
+	nf := c.Pick(4, 6)
 	var wg sync.WaitGroup
 	sem := make(chan int, 2)
 	sem <- 0
@@ -601,9 +707,12 @@ func main() {
 	for i := 0; i < n; i++ {
 		sc := genSchedule(c.Rand(uint64(500+i)), i, nf)
 		if i == 0 {
-			// the quick schedule always covers: kill follower, kill leader, then another kill
-			sc.Faults[0] = fault{"kill", "follower"}
-			sc.Faults[1] = fault{"kill", "leader"}
+			// the first schedule always covers: the leader dies inside a flush before the data file
+			// exists; after it rejoined its successor is killed (the rejoined store serves again);
+			// a follower is killed; the remaining faults are seeded
+			sc.Faults[0] = fault{Kind: "kill-during-flush", Target: "leader", Point: "flush-after-index-flush"}
+			sc.Faults[1] = fault{Kind: "kill", Target: "leader"}
+			sc.Faults[2] = fault{Kind: "kill", Target: "follower"}
 		}
 		w := <-sem
 		wg.Add(1)
